@@ -37,8 +37,10 @@ func (sp *statusProgram) shape(resp Object, req Object) Object {
 	return resp
 }
 
-func (sp *statusProgram) Sync(req Object) Object     { return sp.shape(sp.tp.SyncResponse(req), req) }
-func (sp *statusProgram) Finalize(req Object) Object { return sp.shape(sp.tp.FinalizeResponse(req), req) }
+func (sp *statusProgram) Sync(req Object) Object { return sp.shape(sp.tp.SyncResponse(req), req) }
+func (sp *statusProgram) Finalize(req Object) Object {
+	return sp.shape(sp.tp.FinalizeResponse(req), req)
+}
 
 // C11Scenario: parent status = hook status + observedGeneration; nothing else is touched.
 func C11Scenario() *Scenario {
